@@ -118,6 +118,7 @@ func pduCases(r *rec, g *te.Gen, perType int, badEvery int) {
 		for alt := 1; alt < vt.NumField(); alt++ {
 			for k := 0; k < perType; k++ {
 				g.BadProb, g.Violated = 0, false
+				g.Rich, g.MaxList = k%2 == 1, []int{2, 5, 1, 3}[k%4] // every second value prefers content-bearing alternatives and extension values
 				if badEvery > 0 && n%badEvery == badEvery-1 {
 					g.BadProb = 0.05
 				}
@@ -175,6 +176,7 @@ func pduCases(r *rec, g *te.Gen, perType int, badEvery int) {
 	for _, tv := range transferTypes {
 		for k := 0; k < perType; k++ {
 			g.BadProb, g.Violated = 0, false
+			g.Rich, g.MaxList = k%2 == 1, []int{2, 5, 1, 3}[k%4]
 			v := reflect.New(reflect.TypeOf(tv)).Elem()
 			g.Fill(v, te.Parse("valueExt"), 1)
 			r.roundtrip(v.Type().Name(), "transfer", v, "valueExt", false)
@@ -450,7 +452,7 @@ func main() {
 	g := &te.Gen{R: ev.Rng(*seed, "per"), MaxList: 2, MaxStr: 40}
 	per := 3
 	if *tier == "thorough" {
-		per = 40
+		per = 160
 	}
 	if *mode == "pdu" || *mode == "all" {
 		pduCases(r, g, per, 7)
